@@ -8,7 +8,7 @@ REGRESS = os.path.join(V.VERIF, "checks", "regress")
 
 
 # which monitor predicates decide which property (every predicate has at least one owner)
-_ROOTS = {"RootMirrors", "LeafValue", "RootByHash", "LastProcessedBlock", "FaultFreeProcessFailed", "InfoLeaves", "InfoByBlock", "RollupTree"}
+_ROOTS = {"ReaderSeesCommittedState", "RootMirrors", "LeafValue", "RootByHash", "LastProcessedBlock", "FaultFreeProcessFailed", "InfoLeaves", "InfoByBlock", "RollupTree"}
 OWNERS = {
     "C01": _ROOTS,
     "C11": _ROOTS,
@@ -73,6 +73,8 @@ def sparsify(b, rng):
         o = dict(o)
         if o["op"] in ("process", "reorg") and rng.random() < (0.4 if o["op"] == "reorg" else 0.15):
             o["busy"] = True       # a query is in flight on the store's connection pool while the syncer writes
+        if o["op"] in ("process", "reorg") and o.get("fault", {}).get("kind", "none") == "none" and rng.random() < 0.2:
+            o["peek"] = rng.choice([-1, -1, 1, 2, 3, 5, 8, 34])   # a reader looks at the store in the middle of the operation
         if o["op"] == "process":
             o["num"] = r(o["num"])
             if o.get("fault", {}).get("kind") == "readinit":
